@@ -16,7 +16,7 @@ pub fn def() -> CheckDef {
         rule: "case = generated deterministic-outcome model (control flow, catches, generated acts, set/code writers, env; a third with steps/branches/acts written without an id - the engine generates one, observations map it back through the node name) x scripted client table answered by a canonical sequential client (smallest (key, occurrence) first, so that the client-visible history is the same in both runs) x run A without faults, then runs B_i that inject at quiescent point i either an engine restart on the same store (SQLite file, or in-memory collections transplanted into the new engine) or an eviction of the process from the cache - at every quiescent point of A in the thorough tier, at up to 5 seeded points (plus one pair) in the quick tier. B must issue the same client actions with the same results, produce per phase (between two client actions) the same multiset of messages up to ids/tids/timestamps, the same final task outcomes and the same terminal event and outputs. non-trivial = the fault hit a point where the process had an open interrupt and at least two client actions followed; distinct = distinct (scenario hash, fault point, fault kind)",
         level: "fault_enumeration",
         assumptions: &["faults are injected at quiescent points only (the statement's scope)", "a killed engine runs no destructors; only the store survives", "monotone simulated clock", "no storage errors are injected"],
-        probes: &["probe.restart_sqlite", "probe.restart_mem", "probe.evict", "probe.fault_with_open_interrupt", "probe.two_faults", "probe.generated_acts", "probe.env", "probe.catch", "probe.nodes_without_id"],
+        probes: &["probe.restart_sqlite", "probe.restart_mem", "probe.evict", "probe.fault_with_open_interrupt", "probe.two_faults", "probe.generated_acts", "probe.env", "probe.catch", "probe.nodes_without_id", "probe.timeout_rule_fired"],
         quick_cases: 1000,
         no_shrink: &[],
     }
@@ -74,6 +74,33 @@ fn gen_scenario(rng: &mut vsim::rng::Rng) -> Scenario {
     sc.engine.keep_processes = true;
     sc.capture = true;
     sc.knobs.policy = "fifo".into();
+    // timeout rules on some interrupts and time that passes between the client's actions (clock jump + tick while
+    // interrupts are open): what a rule has done, and what it still has to do, must survive the reload
+    if rng.below(4) == 0 {
+        let mut n = 0;
+        fn add_rules(steps: &mut [MStep], rng: &mut vsim::rng::Rng, n: &mut u32) {
+            for s in steps.iter_mut() {
+                for a in s.acts.iter_mut() {
+                    if matches!(a.kind, ActKind::Irq) && rng.below(2) == 0 {
+                        *n += 1;
+                        let on = rng.pick(&["2s", "5s", "1m"]).to_string();
+                        let kind = if rng.below(2) == 0 { ActKind::Irq } else { ActKind::Msg };
+                        a.timeouts.push(MTimeout { on, steps: vec![MStep { id: format!("to{}", n), acts: vec![MAct { id: format!("to{}_m", n), key: format!("timeout{}", n), kind, ..Default::default() }], ..Default::default() }] });
+                    }
+                }
+                for b in s.branches.iter_mut() {
+                    add_rules(&mut b.steps, rng, n);
+                }
+            }
+        }
+        add_rules(&mut sc.models[0].steps, rng, &mut n);
+        sc.engine.tick_interval_secs = 1;
+        let mut at = 0;
+        for _ in 0..(2 + rng.below(4)) {
+            at += rng.below(3) as u32;
+            sc.time_ops.push(TimeOp { before_action: at, jump_us: *rng.pick(&[2_500_000i64, 6_000_000, 61_000_000]) });
+        }
+    }
     // some nodes without an id in the YAML: the engine generates one, which must survive the reload
     if rng.below(3) == 0 {
         let keep = opts.p_scripted > 0;
@@ -178,6 +205,9 @@ pub fn case(ctx: &mut CaseCtx) -> CaseOut {
     if rec_a.trans.iter().any(|t| t.old == "error" && t.new == "running") {
         ctx.count("probe.catch", 1);
     }
+    if rec_a.msgs.iter().any(|m| m.key.starts_with("timeout")) {
+        ctx.count("probe.timeout_rule_fired", 1);
+    }
     let mut plans: Vec<Vec<(usize, String)>> = vec![];
     for p in &points {
         let kind = if base.engine.store == "sqlite" { if fr.below(4) == 0 { "evict" } else { "restart" } } else { *fr.pick(&["evict", "restart"]) };
@@ -231,26 +261,42 @@ pub fn case(ctx: &mut CaseCtx) -> CaseOut {
             x
         };
         let _ = (&what, &store);
-        let sig = |diff: &str, _detail: &str| json!({"differs": diff, "generated_acts_in_model": gens});
+        // a process that is not held by the cache is not visited by the tick: its timeout rules do not fire while it
+        // is evicted (recorded finding); whether that is the situation is part of the signature
+        let timed = {
+            let mut x = false;
+            for m in &base.models {
+                m.visit_acts(&mut |a| x |= !a.timeouts.is_empty());
+            }
+            x && !base.time_ops.is_empty()
+        };
+        let timed_evicted = timed && plan.iter().any(|(_, k)| k == "evict");
+        // the flag is part of the signature only when the difference itself is about the steps of timeout rules
+        // (`about_rules`): any other difference in such a run is reported as usual
+        let sig = |diff: &str, about_rules: bool| if timed_evicted && about_rules { json!({"differs": diff, "timed_process_evicted": true, "difference_is_about_timeout_rule_steps": true}) } else { json!({"differs": diff, "generated_acts_in_model": gens}) };
+        let rule_node = |s: &str| s.starts_with("to") && s[2..].chars().next().map(|c| c.is_ascii_digit()).unwrap_or(false);
         let at = format!("{:?} on {}", plan, store);
         if !rec_b.panics.is_empty() || rec_b.step_cap_hit {
-            out.violations.push(Violation::new("C12", "run_broke_after_fault", sig("panic_or_livelock", ""), format!("faults {}: run B panicked or did not settle: {:?}", at, rec_b.panics)));
+            out.violations.push(Violation::new("C12", "run_broke_after_fault", sig("panic_or_livelock", false), format!("faults {}: run B panicked or did not settle: {:?}", at, rec_b.panics)));
         } else if ca.actions != cb.actions {
             let i = ca.actions.iter().zip(cb.actions.iter()).position(|(x, y)| x != y).unwrap_or(ca.actions.len().min(cb.actions.len()));
             let d = if cb.actions.len() < ca.actions.len() && i == cb.actions.len() { "fewer_actions_possible" } else if cb.actions.get(i).map(|s| s.ends_with("err")).unwrap_or(false) { "action_rejected_after_fault" } else { "other" };
-            out.violations.push(Violation::new("C12", "client_history_differs", sig("actions", d), format!("faults {}: the client's {}-th action differs: A `{}` / B `{}` (A has {} actions, B {})", at, i, ca.actions.get(i).cloned().unwrap_or_default(), cb.actions.get(i).cloned().unwrap_or_default(), ca.actions.len(), cb.actions.len())));
+            let about = [ca.actions.get(i), cb.actions.get(i)].iter().flatten().any(|a| a.contains(" timeout"));
+            out.violations.push(Violation::new("C12", "client_history_differs", sig("actions", about), format!("faults {}: the client's {}-th action differs: A `{}` / B `{}` (A has {} actions, B {})", at, i, ca.actions.get(i).cloned().unwrap_or_default(), cb.actions.get(i).cloned().unwrap_or_default(), ca.actions.len(), cb.actions.len())));
         } else if ca.phases != cb.phases {
             let i = ca.phases.iter().zip(cb.phases.iter()).position(|(x, y)| x != y).unwrap_or(ca.phases.len().min(cb.phases.len()));
             let (pa, pb) = (ca.phases.get(i).cloned().unwrap_or_default(), cb.phases.get(i).cloned().unwrap_or_default());
             let only_a: Vec<&String> = pa.iter().filter(|m| !pb.contains(m)).collect();
             let only_b: Vec<&String> = pb.iter().filter(|m| !pa.contains(m)).collect();
             let d = if only_b.is_empty() { "messages_missing" } else if only_a.is_empty() { "extra_messages" } else { "messages_changed" };
-            out.violations.push(Violation::new("C12", "messages_differ", sig("phase_messages", d), format!("faults {}: phase {} (after action `{}`): only in A: {:?}; only in B: {:?}", at, i, ca.actions.get(i.saturating_sub(1)).cloned().unwrap_or_default(), only_a.iter().take(3).collect::<Vec<_>>(), only_b.iter().take(3).collect::<Vec<_>>())));
+            let about = only_a.iter().chain(only_b.iter()).all(|m| m.split(' ').nth(2).map(|n| rule_node(n)).unwrap_or(false));
+            out.violations.push(Violation::new("C12", "messages_differ", sig("phase_messages", about), format!("faults {}: phase {} (after action `{}`): only in A: {:?}; only in B: {:?}", at, i, ca.actions.get(i.saturating_sub(1)).cloned().unwrap_or_default(), only_a.iter().take(3).collect::<Vec<_>>(), only_b.iter().take(3).collect::<Vec<_>>())));
         } else if ca.outcome != cb.outcome {
             let diff: Vec<String> = ca.outcome.iter().filter(|(k, v)| cb.outcome.get(*k) != Some(v)).map(|(k, v)| format!("{}: {:?} vs {:?}", k, v, cb.outcome.get(k))).collect();
-            out.violations.push(Violation::new("C12", "task_outcomes_differ", sig("outcome", ""), format!("faults {}: final task states differ: {}", at, diff.join("; "))));
+            let about = ca.outcome.iter().filter(|(k, v)| cb.outcome.get(*k) != Some(v)).map(|(k, _)| k).chain(cb.outcome.keys().filter(|k| !ca.outcome.contains_key(*k))).all(|k| rule_node(k));
+            out.violations.push(Violation::new("C12", "task_outcomes_differ", sig("outcome", about), format!("faults {}: final task states differ: {}", at, diff.join("; "))));
         } else if ca.terminal != cb.terminal {
-            out.violations.push(Violation::new("C12", "terminal_event_differs", sig("terminal", ""), format!("faults {}: terminal event A {:?} / B {:?}", at, ca.terminal, cb.terminal)));
+            out.violations.push(Violation::new("C12", "terminal_event_differs", sig("terminal", false), format!("faults {}: terminal event A {:?} / B {:?}", at, ca.terminal, cb.terminal)));
         }
         if !out.violations.is_empty() {
             // the replay file holds the base scenario: the failing plan is re-derived from the case stream
